@@ -20,7 +20,7 @@ ASSUMPTIONS = [LEVEL_NOTE]
 
 
 def plan(tier):
-    return {"n": 150 if tier == "quick" else 2000, "floor": 40 if tier == "quick" else 500}
+    return {"n": 150 if tier == "quick" else 600, "floor": 40 if tier == "quick" else 150}
 
 
 def rule(tier):
